@@ -97,9 +97,18 @@ static int nd;
 
 /* n-th allocation fails (C08/C14-style fault injection); 0 = off */
 static long af_countdown, af_total;
-static void *af_malloc(size_t n) { af_total++; if (af_countdown && --af_countdown == 0) return NULL; return malloc(n); }
-static void *af_realloc(void *p, size_t n) { af_total++; if (af_countdown && --af_countdown == 0) return NULL; return realloc(p, n); }
-static void af_free(void *p) { free(p); }
+/* C10 resource balance: blocks handed out by / returned to the library's allocator, and whether a fault fired */
+static long af_live, af_fired;
+static void *af_malloc(size_t n) { void *m; af_total++; if (af_countdown && --af_countdown == 0) { af_fired = 1; return NULL; } m = malloc(n); if (m) af_live++; return m; }
+static void *af_realloc(void *p, size_t n) { void *m; af_total++; if (af_countdown && --af_countdown == 0) { af_fired = 1; return NULL; } m = realloc(p, n); if (m && !p) af_live++; return m; }
+static void af_free(void *p) { if (p) af_live--; free(p); }
+static long live0; static int fds0;
+static int count_fds(void)
+{
+	int n = 0, fd;
+	for (fd = 0; fd < 1024; fd++) if (fcntl(fd, F_GETFD) != -1) n++;
+	return n;
+}
 static void nop_cb(evutil_socket_t fd, short what, void *arg) { (void)fd; (void)what; (void)arg; }
 
 
@@ -387,7 +396,7 @@ static int exec_op_inner(jval *op, int incb)
 		if (j_int(op, "n", 1)) event_base_free(base); else event_base_free_nofinalize(base);
 		base = NULL;
 		for (i = 1; i <= NEV; i++)	/* a pending event_finalize() that never ran leaves the memory with us */
-			if (alloc[i] && finreq[i] == 2) { free(ev[i]); alloc[i] = 0; }
+			if (alloc[i] && finreq[i] == 2) { af_free(ev[i]); alloc[i] = 0; }
 		return 0;
 	}
 	if (!strcmp(a, "loop")) {
@@ -461,7 +470,7 @@ static void run_scenario(jval *sc)
 	size_t k;
 
 	lockrec_reset(j_str(cfg, "sid", "0"));
-	af_total = 0;
+	af_total = 0; af_fired = 0;
 	af_countdown = j_int(cfg, "allocfail0", 0);   /* fail the n-th allocation counted from base creation */
 	nev = 5 + (int)j_int(cfg, "nx", 0);
 	if (nev > NEV) nev = NEV;
@@ -584,7 +593,6 @@ static void run_scenario(jval *sc)
 	}
 	fprintf(out, "],\"allocs\":%ld", af_total);
 	if (child_json) { fprintf(out, ",\"child\":%s", child_json); free(child_json); child_json = NULL; }
-	fprintf(out, "}\n");
 	/* teardown (the line is only emitted afterwards, so that a crash in the
 	 * teardown is attributed to this scenario) */
 	af_countdown = 0;
@@ -598,9 +606,12 @@ static void run_scenario(jval *sc)
 	}
 	lockrec_api_return("teardown");
 	for (i = 1; i <= NEV; i++)
-		if (alloc[i]) { free(ev[i]); alloc[i] = 0; }
+		if (alloc[i]) { af_free(ev[i]); alloc[i] = 0; }
 	base = NULL;
 	for (i = 1; i <= 2; i++) { close(pipes[i][0]); close(pipes[i][1]); }
+	/* C10: after the events are released and the base is freed nothing the library allocated remains
+	 * (memory through its allocator, descriptors in the fd table); not judged when an allocation fault fired */
+	fprintf(out, ",\"leak\":{\"m\":%ld,\"fd\":%d,\"judged\":%d}}\n", af_live - live0, count_fds() - fds0, af_fired ? 0 : 1);
 }
 
 int main(int argc, char **argv)
@@ -618,6 +629,7 @@ int main(int argc, char **argv)
 			char *mbuf = NULL; size_t mlen = 0;
 			out = open_memstream(&mbuf, &mlen);
 			j_watchdog(30);
+			live0 = af_live; fds0 = count_fds();
 			run_scenario(sc);
 			fclose(out);
 			fwrite(mbuf, 1, mlen, stdout);
